@@ -68,10 +68,24 @@ def data_array(case):
     return np.array(case['vecs'], dtype=float) / SCALE
 
 
+def as_descriptor(vals, form):
+    """the container / dtype a grouping descriptor is handed over in"""
+    if form == 'array':
+        return np.array(vals)
+    if form == 'int64' and all(isinstance(v, int) and not isinstance(v, bool) for v in vals):
+        return np.array(vals, dtype=np.int64)
+    if form == 'float' and all(isinstance(v, (int, float)) and not isinstance(v, bool) for v in vals):
+        return np.array(vals, dtype=float)
+    if form == 'tuple':
+        return tuple(vals)
+    return list(vals)
+
+
 def build_data(case):
     ctx = Ctx(case)
-    rd = {} if case.get('rdm_groups') is None else {ctx.rd: list(case['rdm_groups'])}
-    pd = {} if case.get('pat_groups') is None else {ctx.pd: list(case['pat_groups'])}
+    form = case.get('desc_form', 'list')
+    rd = {} if case.get('rdm_groups') is None else {ctx.rd: as_descriptor(case['rdm_groups'], form)}
+    pd = {} if case.get('pat_groups') is None else {ctx.pd: as_descriptor(case['pat_groups'], form)}
     return RDMs(data_array(case), dissimilarity_measure='test', rdm_descriptors=rd,
                 pattern_descriptors=pd)
 
@@ -80,7 +94,8 @@ def build_models(case):
     ctx = Ctx(case)
     out = []
     for k, m in enumerate(case['models']):
-        pd = {} if case.get('pat_groups') is None else {ctx.pd: list(case['pat_groups'])}
+        pd = {} if case.get('pat_groups') is None else \
+            {ctx.pd: as_descriptor(case['pat_groups'], case.get('desc_form', 'list'))}
         base = RDMs(np.array(m['vecs'], dtype=float) / SCALE, pattern_descriptors=pd)
         cls = {'fixed': ModelFixed, 'weighted': ModelWeighted, 'select': ModelSelect,
                'interpolate': ModelInterpolate}[m['type']]
@@ -210,6 +225,12 @@ class CallTap:
             finally:
                 np.random.set_state(state)
             rec['pred'] = [lean.fbits(x) for x in np.ravel(model.predict(theta))]
+            if not rec.get('fitter_failed'):
+                try:
+                    rec['opt'] = train_optimality(base, model, data, method, pattern_idx,
+                                                  pattern_descriptor, theta, rec, j)
+                except Exception:  # noqa: BLE001  (diagnostic only; never affects the run)
+                    pass
             self.fits.append(rec)
             return theta
         return fit
@@ -240,14 +261,81 @@ class CallTap:
         self.ncs.append(rec)
         return val
 
+    def result(self, *a, **kw):
+        """records the keyword arguments of the evaluator's own `Result(...)` call"""
+        self.result_kw.append({'n_rdm': kw.get('n_rdm'), 'n_pattern': kw.get('n_pattern'),
+                               'has_variances': kw.get('variances') is not None,
+                               'cv_method': kw.get('cv_method')})
+        return self.o_result(*a, **kw)
+
     def __enter__(self):
+        self.result_kw = []
+        self.o_result = E.Result
         E.boot_noise_ceiling = self.boot
         E.cv_noise_ceiling = self.cv
+        E.Result = self.result
         return self
 
     def __exit__(self, *a):
         E.boot_noise_ceiling = self.o_boot
         E.cv_noise_ceiling = self.o_cv
+        E.Result = self.o_result
+
+
+def train_criterion(model, data, method, pattern_idx, pattern_descriptor, theta):
+    """what every fitter maximises: mean similarity of the prediction at `theta`, restricted to the
+    training pattern indices, with the training RDMs (the *training view* only)"""
+    from rsatoolbox.rdm import compare
+    pred = model.predict_rdm(theta)
+    if not (pattern_idx is None or pattern_descriptor is None):
+        pred = pred.subsample_pattern(pattern_descriptor, pattern_idx)
+    return float(np.mean(compare(pred, data, method=method)))
+
+
+def train_optimality(base, model, data, method, pattern_idx, pattern_descriptor, theta, rec, j):
+    """one-sided check of an observed fit: criterion at the returned parameters and at the
+    competitors the fitter is *guaranteed* to be no worse than.
+      fit_select    every candidate index (exact argmax)
+      fit_optimize  its own 2 * n_param random starts (BFGS never ends above its start; the best
+                    restart is returned) and, for cosine / corr (where the criterion has a single
+                    maximum on the sphere: mean_i cos(p, d_i) = p/|p| . mean_i d_i/|d_i|), the
+                    unit vectors and the least-squares projection of the mean normalised data
+    Returns {'kind', 'crit', 'strict': [...], 'loose': [...]}."""
+    name = getattr(base, '__name__', '')
+
+    def crit(t):
+        return train_criterion(model, data, method, pattern_idx, pattern_descriptor, t)
+    if name == 'fit_select':
+        return {'kind': 'select', 'crit': crit(int(theta)),
+                'strict': [crit(k) for k in range(model.n_rdm)], 'loose': []}
+    if name != 'fit_optimize':
+        return None
+    state = np.random.get_state()
+    try:
+        np.random.seed(zlib.crc32(key([j, rec['obj'], rec['pidx']]).encode()))
+        starts = [np.random.rand(model.n_param) for _ in range(2 * model.n_param)]
+    finally:
+        np.random.set_state(state)
+    out = {'kind': 'optimize', 'crit': crit(theta), 'strict': [crit(t0) for t0 in starts], 'loose': []}
+    if method in ('cosine', 'corr'):
+        comp = [np.eye(model.n_param)[k] for k in range(model.n_param)]
+        try:
+            B = model.rdm_obj
+            if not (pattern_idx is None or pattern_descriptor is None):
+                B = B.subsample_pattern(pattern_descriptor, pattern_idx)
+            B = np.asarray(B.get_vectors(), dtype=float)
+            D = np.asarray(data.get_vectors(), dtype=float)
+            keep = ~np.isnan(B).any(0) & ~np.isnan(D).any(0)
+            B, D = B[:, keep], D[:, keep]
+            if method == 'corr':
+                B = B - B.mean(1, keepdims=True)
+                D = D - D.mean(1, keepdims=True)
+            g = (D / np.sqrt((D ** 2).sum(1, keepdims=True))).mean(0)
+            comp.append(np.linalg.lstsq(B.T, g, rcond=None)[0])
+        except Exception:  # noqa: BLE001
+            pass
+        out['loose'] = [crit(t) for t in comp]
+    return out
 
 
 # ------------------------------------------------------------------ running the real routine
@@ -307,18 +395,18 @@ def call_routine(case, data, models, ctx, tap):
                           calc_noise_ceil=case.get('calc_nc', True))
     if r == 'bcv':
         return E.bootstrap_crossval(models, data, method=method, fitter=tap.fitters,
-                                    k_pattern=case['kp'], k_rdm=case['kr'], N=case['N'],
+                                    k_pattern=case.get('kp'), k_rdm=case.get('kr'), N=case['N'],
                                     n_cv=case['n_cv'], pattern_descriptor=ctx.pd,
                                     rdm_descriptor=ctx.rd, boot_type=bt,
                                     use_correction=case['use_correction'])
     if r == 'dual':
         return E.eval_dual_bootstrap(models, data, method=method, fitter=tap.fitters,
-                                     k_pattern=case['kp'], k_rdm=case['kr'], N=case['N'],
+                                     k_pattern=case.get('kp'), k_rdm=case.get('kr'), N=case['N'],
                                      n_cv=case['n_cv'], pattern_descriptor=ctx.pd,
                                      rdm_descriptor=ctx.rd, use_correction=case['use_correction'])
     if r == 'random':
         return E.eval_dual_bootstrap_random(models, data, method=method, fitter=tap.fitters,
-                                            n_pattern=case['np'], n_rdm=case['nr'], N=case['N'],
+                                            n_pattern=case.get('np'), n_rdm=case.get('nr'), N=case['N'],
                                             n_cv=case['n_cv'], pattern_descriptor=ctx.pd,
                                             rdm_descriptor=ctx.rd, boot_type=bt,
                                             use_correction=case['use_correction'])
@@ -355,6 +443,11 @@ def canon_result(case, res):
            'cov': tolist(var), 'cv_method': res.cv_method}
     if case['routine'] != 'crossval':
         out['dof'] = int(res.dof)
+    out['meta'] = {'cv_method': res.cv_method,
+                   'eval_shape': [int(x) for x in np.shape(res.evaluations)],
+                   'nc_shape': [int(x) for x in np.shape(res.noise_ceiling)],
+                   'attr_n_rdm': None if res.n_rdm is None else int(res.n_rdm),
+                   'attr_n_pattern': None if res.n_pattern is None else int(res.n_pattern)}
     return out
 
 
@@ -384,6 +477,12 @@ def observe(case, fresh=False):
                 out['fits'] = tap.fits
                 out['ncs'] = tap.ncs
             out['result'] = canon_result(case, res)
+            if 'meta' in out['result'] and tap.result_kw:
+                kw = tap.result_kw[-1]          # the evaluator's own call is the last one
+                out['result']['meta'].update(
+                    has_variances=bool(kw['has_variances']),
+                    passed_n_rdm=None if kw['n_rdm'] is None else int(kw['n_rdm']),
+                    passed_n_pattern=None if kw['n_pattern'] is None else int(kw['n_pattern']))
             if case.get('theta') is not None or case['routine'] in ('fixed', 'bootstrap'):
                 th = thetas(case, models) or [None] * len(models)
                 out['preds'] = [[lean.fbits(x) for x in np.ravel(m.predict(theta=t) if t is not None
@@ -398,7 +497,7 @@ def observe(case, fresh=False):
                 files.append(tb.tb_frame.f_code.co_filename)
                 tb = tb.tb_next
             if name == 'AssertionError' and files and files[-1].endswith('crossvalsets.py'):
-                out['callee_exc'] = True      # the set generator rejected its arguments (C05)
+                out['sets_rejected'] = True   # the set generator rejected its arguments
             out['exc'] = name if name in ('ValueError', 'TypeError', 'KeyError', 'IndexError',
                                           'AssertionError', 'Warning', 'ZeroDivisionError') \
                 else 'other:' + name
@@ -410,6 +509,6 @@ def observe(case, fresh=False):
     return out
 
 
-from engines.C04_model import model_request, model_canon, expected_exception, diff_results  # noqa: E402,F401
+from engines.C04_model import model_request, model_canon, expected_exception, diff_results, eff  # noqa: E402,F401
 from engines.C04_plain import oracle  # noqa: E402,F401
 from engines.C04_gen import generate, shrink, features  # noqa: E402,F401
